@@ -223,3 +223,11 @@ def rule_commit(ctx):
 
 
 RULES.append(("C15.f", "branch-commit: between the decision to perform an effect and the effect there is no way out", rule_commit))
+
+
+def rule_inventory(ctx):
+    from . import inventory
+    inventory.check_narrowing(ctx)
+
+
+RULES.append(("C15.g", "inventory: no new narrowing integer cast", rule_inventory))
